@@ -65,6 +65,35 @@ let tags_verdict tags =
          | [] -> go rest) in
   go (split '|' tags)
 
+(* tag-scanning model against the real tokenizer: <raw>.<name>.<sc>[.<key>~<val>]* *)
+let tag_agrees t =
+  match String.split_on_char '.' t with
+  | raw :: name :: sc :: attrs ->
+      let rawb = str_of_field raw in
+      (match rawb with
+       | _lt :: c0 :: s ->
+           (match scan_start_tag c0 s with
+            | Some (((n, mattrs), msc), rest) ->
+                let real = List.map kv_of attrs in
+                rest = [] && n = str_of_field name && msc = (sc = "1")
+                && List.length mattrs = List.length real
+                && List.for_all2 (fun (mk, mv) (rk, rv) ->
+                     mk = rk &&
+                     (* the real value is entity-decoded and newline-converted: compared exactly when the raw
+                        value holds neither an ampersand nor a CR, else up to the first such byte *)
+                     (let rec pre a b = match a, b with
+                        | [], [] -> true
+                        | x :: a', _ when int_of_n x = 38 || int_of_n x = 13 -> true
+                        | x :: a', y :: b' -> x = y && pre a' b'
+                        | _ -> false in pre mv rv)) mattrs real
+            | None -> false)
+       | _ -> false)
+  | _ -> false
+let tags_agree field =
+  match List.find_opt (fun t -> not (tag_agrees t)) (split '|' field) with
+  | None -> "T1"
+  | Some t -> "T0:" ^ (match String.split_on_char '.' t with r :: _ -> r | [] -> "")
+
 let starts_with p s = String.length s >= String.length p && String.sub s 0 (String.length p) = p
 
 let html_verdict rep =
@@ -92,7 +121,7 @@ let () =
         let verdict = if decls_ok true (toks_of retoks) then "ok" else "fail:style-declaration-off-allow-list" in
         ignore out;
         Mlutil.print_model [field_of_str m] verdict
-    | "html", [_], [f0; items; final; rep; toks2; tags] ->
+    | "html", [_], [f0; items; final; rep; toks2; tags; _; rawtags] ->
         let its = List.map item_of (split '|' items) in
         let m = style_tag_filter its in
         let t2 = List.map htoken_of (split '|' toks2) in
@@ -105,7 +134,7 @@ let () =
           else match html_verdict rep with
             | "ok" -> tags_verdict tags
             | v -> v in
-        Mlutil.print_model ["S" ^ field_of_str m; "S" ^ field_of_str mfinal] verdict
+        Mlutil.print_model ["S" ^ field_of_str m; "S" ^ field_of_str mfinal; tags_agree rawtags] verdict
     | "text", [t], [out; ivs] ->
         let t = str_of_field t in
         let ivs = List.map iv_of (split ',' ivs) in
